@@ -510,7 +510,59 @@ def formats():
         if found is None:
             raise ValueError("%s: no 'if manager.agg_type == \"vuln\"' ordering found in report()" % fmt)
         rows.append((fmt, found[0], found[1]))
-    return "Definition SORT_KEYS : list (pstr * (pstr * pstr)) := %s.\n" % L.lst(
+    # where each formatter takes its records from: one call of manager.get_issue_list with the caller's two thresholds,
+    # walked by loops that neither skip nor stop (one record per reported finding)
+    loops = []
+    for fmt in ("json", "yaml", "csv", "xml", "html", "sarif", "custom"):
+        tree = ast.parse(open(os.path.join(REPO, "bandit/formatters/%s.py" % fmt)).read())
+        rep = find_func(tree, "report")
+        params = [a.arg for a in rep.args.args]
+        calls, var = 0, None
+        for n in ast.walk(rep):
+            if isinstance(n, ast.Call) and dotted(n.func) == "manager.get_issue_list":
+                kw = {k.arg: dotted(k.value) for k in n.keywords}
+                if kw != {"sev_level": "sev_level", "conf_level": "conf_level"} or n.args or "sev_level" not in params or "conf_level" not in params:
+                    raise ValueError("%s: get_issue_list is not called with the report's own thresholds" % fmt)
+                calls += 1
+        for n in ast.walk(rep):
+            if isinstance(n, ast.Assign) and isinstance(n.value, ast.Call) and dotted(n.value.func) == "manager.get_issue_list":
+                var = dotted(n.targets[0])
+        nloops, clean = 0, True
+
+        def over_var(it):
+            return dotted(it) == var or (isinstance(it, ast.Call) and dotted(it.func) == "enumerate" and it.args and dotted(it.args[0]) == var)
+        scope = [rep] + [f for f in tree.body if isinstance(f, ast.FunctionDef) and f.name != "report"]
+        for n in ast.walk(rep):
+            if isinstance(n, ast.For) and over_var(n.iter):
+                nloops += 1
+                for x in n.body:
+                    for y in ast.walk(x):
+                        if isinstance(y, (ast.Continue, ast.Break, ast.Return)):
+                            clean = False
+            if isinstance(n, (ast.ListComp, ast.GeneratorExp, ast.SetComp, ast.DictComp)):
+                for g in n.generators:
+                    if over_var(g.iter):
+                        nloops += 1
+                        if g.ifs:
+                            clean = False
+        # sarif hands the list to a helper: follow one level
+        for n in ast.walk(rep):
+            if isinstance(n, ast.Call) and any(dotted(a) == var for a in n.args) and isinstance(n.func, ast.Name):
+                helper = [f for f in tree.body if isinstance(f, ast.FunctionDef) and f.name == n.func.id]
+                if helper:
+                    pos = [i for i, a in enumerate(n.args) if dotted(a) == var][0]
+                    pname = helper[0].args.args[pos].arg
+                    for m in ast.walk(helper[0]):
+                        if isinstance(m, ast.For) and dotted(m.iter) == pname:
+                            nloops += 1
+                            for x in m.body:
+                                for y in ast.walk(x):
+                                    if isinstance(y, (ast.Continue, ast.Break)):
+                                        clean = False
+        loops.append((fmt, calls, nloops, clean))
+    extra = "Definition RECORD_LOOPS : list (pstr * (Z * (Z * bool))) := %s.\n" % L.lst(
+        [L.pair(L.pstr(a), L.pair(L.Z(b), L.pair(L.Z(c), L.B(d)))) for a, b, c, d in loops], "pstr * (Z * (Z * bool))")
+    return extra + "Definition SORT_KEYS : list (pstr * (pstr * pstr)) := %s.\n" % L.lst(
         [L.pair(L.pstr(a), L.pair(L.pstr(b), L.pstr(c))) for a, b, c in rows], "pstr * (pstr * pstr)")
 
 
